@@ -45,15 +45,9 @@ class ValidateInput(Contract):
                 raise Unsupported("_validate_input: cannot decide one-hotness of %r" % (X,))
             rest_dims = [d for q, d in enumerate(X.shape) if q != 1]
             A = X.shape[1]
-            sk = [z3.Int(O.fresh_name('col')) for _ in rest_dims]
-            lo = 0
             if a.get('allow_N'):
                 raise Unsupported("_validate_input(allow_N=True) not modelled")
-            inbox = And(*[O.in_range(i, 0, d) for i, d in zip(sk, rest_dims)])
-            body = O.simp(And(inbox, Or(w(*sk) < lo, w(*sk) >= A)))
-            if O.is_sym(body):
-                body = z3.Exists(sk, body)
-            conds.append(body)
+            conds.append(O.exists_box(rest_dims, lambda *sk: Or(w(*sk) < 0, w(*sk) >= A)))
             # torch.unique(X) must be exactly {0, 1}
             conds.append(O.eq(X.numel(), 0) if not O.any_sym(*X.shape) else Or(*[d <= 0 for d in X.shape]))
             conds.append(O.eq(A, 1))
@@ -74,8 +68,7 @@ class OneHotEncode(Contract):
         s = a.sequence
         if not isinstance(s, SStr):
             raise Unsupported("one_hot_encode of a non-symbolic string")
-        i = z3.Int(O.fresh_name('ch'))
-        return z3.Exists([i], And(0 <= i, i < s.length, O.eq(s.code(i), -2)))
+        return O.exists_box([s.length], lambda i: O.eq(s.code(i), -2))
 
     def result(self, a, cfg):
         s = a.sequence
